@@ -78,6 +78,23 @@ def getter_of(e, receiver_names) -> Tuple[Optional[str], Optional[bool], dict]:
     return None, False, {}
 
 
+LIB_PARAMS = {"numpy.save": ["file", "arr"], "scipy.sparse.save_npz": ["file", "matrix", "compressed"], "numpy.savetxt": ["fname", "X"],
+              "numpy.load": ["file"], "scipy.sparse.load_npz": ["file"], "numpy.savez": ["file"]}
+
+
+def lib_args(dotted, call):
+    """arguments of a numpy/scipy saver/loader call in positional order, whether they were passed positionally or by keyword"""
+    names = LIB_PARAMS.get(dotted, [])
+    out = list(call.args)
+    kw = {k.arg: k.value for k in call.keywords}
+    for i in range(len(out), len(names)):
+        if names[i] in kw:
+            out.append(kw[names[i]])
+        else:
+            break
+    return out
+
+
 def io_writer_table(repo: Repo):
     """GridWriter.save_*  ->  {method: (family, path param ok, getter, direct, node)}"""
     ci = repo.cls("molgri.io", "GridWriter")
@@ -88,11 +105,15 @@ def io_writer_table(repo: Repo):
         calls = [n for n in ast.walk(fi.node) if isinstance(n, ast.Call) and (repo.dotted_of(fi.module, n.func) or "") in SAVE_FAMILY]
         rec = {"fi": fi, "calls": calls}
         if len(calls) == 1:
+            from .astutil import Canon
             c = calls[0]
-            rec["family"] = SAVE_FAMILY[repo.dotted_of(fi.module, c.func)]
+            dn = repo.dotted_of(fi.module, c.func)
+            rec["family"] = SAVE_FAMILY[dn]
             params = fi.params()[1:]
-            rec["path_ok"] = len(c.args) >= 1 and isinstance(c.args[0], ast.Name) and c.args[0].id in params
-            g, direct, kw = getter_of(c.args[1], {"self.fg"}) if len(c.args) > 1 else (None, False, {})
+            la = lib_args(dn, c)
+            cn = Canon(Canon.single_defs(fi.node.body, exclude=set(params)))
+            rec["path_ok"] = len(la) >= 1 and isinstance(la[0], ast.Name) and la[0].id in params
+            g, direct, kw = getter_of(cn.expand(la[1]), {"self.fg"}) if len(la) > 1 else (None, False, {})
             rec["getter"], rec["direct"], rec["kwargs"] = g, direct, kw
             rec["call"] = c
         out[name] = rec
@@ -113,8 +134,9 @@ def io_reader_table(repo: Repo):
             rec["family"] = LOAD_FAMILY.get(d)
             rec["dotted"] = d
             params = fi.params()[1:]
-            rec["path_ok"] = len(c.args) >= 1 and isinstance(c.args[0], ast.Name) and c.args[0].id in params
-            rec["extra"] = [k.arg for k in c.keywords] + [src(a) for a in c.args[1:]]
+            la = lib_args(d, c)
+            rec["path_ok"] = len(la) >= 1 and isinstance(la[0], ast.Name) and la[0].id in params
+            rec["extra"] = [k.arg for k in c.keywords if k.arg not in LIB_PARAMS.get(d, [])[:1]] + [src(a) for a in la[1:]]
             rec["direct"] = True
             rec["call"] = c
         if len(rets) == 1 and rec.get("family") is None:
